@@ -183,6 +183,21 @@ func (v vec) expand(f func(s string)) {
 		for p := v.ns + 1; p < v.ns+v.nl; p++ {
 			f(v.s[:p] + "\x00" + v.s[p:])
 		}
+		// NUL runs (2, 8, 40 bytes) at the middle position and one NUL in every gap at once
+		mid := v.ns + (v.nl+1)/2
+		if v.nl >= 2 {
+			for _, k := range []int{2, 8, 40} {
+				f(v.s[:mid] + strings.Repeat("\x00", k) + v.s[mid:])
+			}
+			var b strings.Builder
+			b.WriteString(v.s[:v.ns+1])
+			for p := v.ns + 1; p < v.ns+v.nl; p++ {
+				b.WriteByte(0)
+				b.WriteByte(v.s[p])
+			}
+			b.WriteString(v.s[v.ns+v.nl:])
+			f(b.String())
+		}
 	}
 }
 
@@ -220,7 +235,7 @@ func init() {
 		ThoroughS: 600,
 		Rule: "complete product of the calibrated vector grammar: (every shipped + pinned-baseline black tag x 7 endings; every shipped + baseline event/black/style attribute x 4 quotings x {bare, bare+'>', element form with 9 separators, spaced '=', after another attribute}; " +
 			"every URL attribute x 4 schemes x 11 scheme obfuscations; indirect attribute names; doctype/entity/import/xml/IE-conditional/back-tick markup) x (14 breakout prefixes for element forms | 13 attribute-context prefixes for bare attributes) " +
-			"x {lower, UPPER, alternating, every single-letter flip of the name, NUL at every interior name position}; every member must be reported by IsXSS; all members are distinct and non-trivial",
+			"x {lower, UPPER, alternating, every single-letter flip of the name, NUL at every interior name position, NUL runs of 2/8/40 in the middle of the name, one NUL in every gap}; every member must be reported by IsXSS; all members are distinct and non-trivial",
 		Assumptions: []string{"the grammar is fixed in c04.go (calibrated once on the repaired pinned tree); list entries are read from the current tables and from the pinned baseline"},
 		Setup: func(w *fw.W) error {
 			base = c04Base()
